@@ -9,11 +9,11 @@ T = {
  'C01': ('R2S', 'QF_UFLIA soundness+completeness of InsertionProof R1CS', 'all field inputs and all hint outputs at (depth,batch) in the stated table; Poseidon2 as UF (C05)', 'other'),
  'C02': ('R2S', 'QF_UFLIA soundness+completeness of DeletionProof R1CS (skip flag, IsZero via field axioms)', 'as C01, depth <= 31', 'other'),
  'C03': ('R2S', 'QF_LIA on the real top-level circuits with Keccak/Merkle gadgets summarised; sliced per packed field', 'batch sizes in the table; Keccak as one uninterpreted application; comparator justified in-run', 'other'),
- 'C04': ('R2S', 'Boolean lifting of the real KeccakRound R1CS vs BV64 reference (QF_BV), schedule by wire identity, sponge by lock-step congruence', 'selected rounds in quick / all 24 in thorough; listed message lengths', 'other'),
- 'C05': ('R2S', 'structural product-atom normal form + SMT disequality of whole Poseidon R1CS vs textbook reference', 'textbook==iden3 cross-validated concretely only', 'other'),
+ 'C04': ('R2S', 'Boolean lifting of the real KeccakRound R1CS vs BV64 reference (QF_BV), schedule by wire identity, sponge by lock-step congruence', 'selected rounds in quick / all 24 in thorough; listed message lengths; history harness (hash after hash over overlapping storage) at listed sizes', 'other'),
+ 'C05': ('R2S', 'structural product-atom normal form + SMT disequality of whole Poseidon R1CS vs textbook reference', 'textbook==iden3 cross-validated concretely only; variable, constant and mixed operands', 'other'),
  'C06': ('R2S', 'QF_BV comparator equivalence, QF_LIA decomposition/recomposition over 8 prime fields', 'byte-aligned widths near the bit length + proxy widths', 'other'),
- 'C07': ('GOSYM', 'go/ssa symbolic execution of Prove*/Verify*/ValidateShape under a Groth16 contract stub', 'dimensions <= 2 (quick 1); Groth16 itself is the contract', 'other'),
- 'C08': ('GOSYM', 'go/ssa symbolic execution of ComputeInputHash* with byte arrays of symbolic length, keccak as UF', 'batch <= 1 quick / 3 thorough', 'other'),
+ 'C07': ('GOSYM', 'go/ssa symbolic execution of Prove*/Verify*/ValidateShape under a Groth16 contract stub', 'dimensions <= 2 (quick 1); big.Int values below 2^264; Groth16 itself is the contract', 'other'),
+ 'C08': ('GOSYM', 'go/ssa symbolic execution of ComputeInputHash* with byte arrays of symbolic length, keccak as UF', 'batch <= 2 quick / 3 thorough; gen-test-params executed for every (mode, depth <= 3 (4), batch <= 2^depth+1)', 'other'),
  'C09': ('GOSYM', 'go/ssa symbolic execution of proveHandler.ServeHTTP with nondeterministic decoder/prover stubs', 'decoded arrays <= 2 (3 thorough)', 'other'),
  'C10': ('GOSYM', 'go/ssa symbolic execution of Proof.MarshalJSON/UnmarshalJSON over 8 symbolic 256-bit coordinates', 'gnark-crypto raw encoding is the contract', 'other'),
  'C11': ('GOSYM', 'go/ssa symbolic execution of WriteTo/WriteRawTo/UnsafeReadFrom over a token stream', 'gnark section serialisers are opaque', 'other'),
